@@ -206,6 +206,32 @@ def crash_exception(kind: str, tag=""):
     return InjectedAbort(f"injected at a crash point {tag}")
 
 
+_WITH_LINES = {}
+
+
+def _with_first_lines(prefix):
+    "(file, line) of the first statement of every `with` body in the package under `prefix`."
+    got = _WITH_LINES.get(prefix)
+    if got is None:
+        import ast
+        import glob
+
+        got = set()
+        for f in glob.glob(os.path.join(prefix, "**", "*.py"), recursive=True):
+            try:
+                tree = ast.parse(open(f, encoding="utf-8").read())
+            except Exception:
+                continue
+            for n in ast.walk(tree):
+                if isinstance(n, (ast.With, ast.AsyncWith)) and n.body:
+                    # the header line(s) too: the implicit __exit__ call at the normal end of
+                    # the block is attributed to the `with` line and is not protected either
+                    for ln in range(n.lineno, n.body[0].lineno + 1):
+                        got.add((f, ln))
+        _WITH_LINES[prefix] = got
+    return got
+
+
 class crash_at:
     """Fault "crash at an arbitrary point": an asynchronous exception (what Ctrl-C, a failed
     allocation or a kill request delivered as an exception do to a running operation) surfaces
@@ -237,7 +263,15 @@ class crash_at:
         if event == "line" and not self.fired and not self.paused and (
                 self.active is None or self.active()):
             self.n += 1
-            if self.n == self.k:
+            if self.n >= self.k and (frame.f_code.co_filename, frame.f_lineno) in _with_first_lines(self.prefix):
+                # not on the header line of a `with` (its entry, and the implicit __exit__ call at
+                # the normal end of the block, which is attributed to that line and lies outside
+                # the protected range) nor on the first line of its body: an exception raised by
+                # a trace function there would skip __exit__ - a state no real asynchronous
+                # exception can produce (CPython makes no interrupt check between __enter__ and
+                # the body, nor between the body and __exit__).  Delivered one line further on.
+                return self._local
+            if self.n >= self.k:
                 self.fired = True
                 sys.settrace(None)
                 raise self.exc
